@@ -1,1 +1,68 @@
-From BW Require Import SpecList.
+(* C03 - Blocks are exactly the tag pairs written in comments (the blockwatch-owned part: from the comment list to blocks, for ANY comment list a grammar could hand over).
+   Property theorems only; proofs are in coq/proofs. *)
+From BW Require Import SpecBlocks.
+From BWP Require Import TextFacts Blocks_proofs Comment_proofs Pos_proofs.
+From Coq Require Import Permutation.
+
+(* The start-tag stack succeeds exactly on balanced tag sequences and then returns their Dyck matching: tags pair innermost-first, nested and sibling blocks each get their own pair (any length, any depth). *)
+Theorem C03_blocks_are_matching : forall ts bs, pair_tags ts [] [] = Ok bs <-> Dyck ts bs.
+Proof. exact pair_tags_iff. Qed.
+Print Assumptions C03_blocks_are_matching.
+
+(* The matching is unique. *)
+Theorem C03_matching_unique : forall ts b1 b2, Dyck ts b1 -> Dyck ts b2 -> b1 = b2.
+Proof. exact dyck_deterministic. Qed.
+Print Assumptions C03_matching_unique.
+
+(* Blocks are reported in source order: the final sort is a permutation ... *)
+Theorem C03_sorted_perm : forall l, Permutation (sort_blocks l) l.
+Proof. exact sort_blocks_perm. Qed.
+Print Assumptions C03_sorted_perm.
+
+(* ... ordered by the position of the start tag. *)
+Theorem C03_sorted : forall l, sorted_by_start (sort_blocks l).
+Proof. exact sort_blocks_sorted. Qed.
+Print Assumptions C03_sorted.
+
+(* The line and column computed for a tag at byte offset p of a comment are those reached by walking p bytes of the comment text from the comment's own start position (tags on any line of a multi-line comment). *)
+Theorem C03_position_exact : forall c p pre ch post,
+  c_text c = pre ++ ch :: post -> blen pre = p -> u8len ch = 1 -> ch <> 10 ->
+  source_position_at c p = Ok (advance (c_text c) p (c_ps c)).
+Proof. exact source_position_at_exact. Qed.
+Print Assumptions C03_position_exact.
+
+(* Every normaliser returns a text with the same byte length and the same line breaks at the same byte offsets as the raw comment ... *)
+Theorem C03_normalise_preserves : forall k s t,
+  normalise k s = Ok (Some t) -> byte_shape t = byte_shape s.
+Proof. exact normalise_shape. Qed.
+Print Assumptions C03_normalise_preserves.
+
+(* ... so positions computed in the normalised text are positions in the source. *)
+Theorem C03_normalised_positions : forall k s t n p0,
+  normalise k s = Ok (Some t) ->
+  (exists pre post, s = pre ++ post /\ blen pre = n) ->
+  (exists pre post, t = pre ++ post /\ blen pre = n) ->
+  advance t n p0 = advance s n p0.
+Proof. exact normalised_positions. Qed.
+Print Assumptions C03_normalised_positions.
+
+(* Walking is compositional: the position of offset |a|+n in a++b is the position of n in b started from the end of a (comment offset to file position). *)
+Theorem C03_advance_compose : forall a b n p0,
+  advance (a ++ b) (blen a + n) p0 = advance b n (advance a (blen a) p0).
+Proof. exact advance_compose. Qed.
+Print Assumptions C03_advance_compose.
+
+(* A block's content is the source text between the end of the comment holding
+   its start tag and the start of the comment holding its end tag; empty when
+   both tags share one comment. *)
+Theorem C03_content_exact : forall ci c a ts te cj e,
+  let b := mk_block ci c a ts te cj e in
+  (ci <> cj -> b_clo b = c_hi c /\ b_chi b = c_lo e) /\
+  (ci = cj -> b_clo b = 0 /\ b_chi b = 0) /\
+  b_cs b = c_pe c /\ b_ce b = c_ps e /\ b_attrs b = a /\ b_ts b = ts /\ b_te b = te.
+Proof.
+  intros ci c a ts te cj e b. unfold b, mk_block; cbn.
+  split; [intros H; apply PeanoNat.Nat.eqb_neq in H; rewrite H; auto|].
+  split; [intros H; apply PeanoNat.Nat.eqb_eq in H; rewrite H; auto|]. repeat split.
+Qed.
+Print Assumptions C03_content_exact.
